@@ -17,6 +17,7 @@ func MessageTransformSubscriberDecorator(transform func(*Message)) SubscriberDec
 		return &messageTransformSubscriberDecorator{
 			sub:       sub,
 			transform: transform,
+			closing:   make(chan struct{}),
 		}, nil
 	}
 }
@@ -40,6 +41,9 @@ type messageTransformSubscriberDecorator struct {
 
 	transform   func(*Message)
 	subscribeWg sync.WaitGroup
+
+	closing   chan struct{}
+	closeOnce sync.Once
 }
 
 func (t *messageTransformSubscriberDecorator) Subscribe(ctx context.Context, topic string) (<-chan *Message, error) {
@@ -54,7 +58,13 @@ func (t *messageTransformSubscriberDecorator) Subscribe(ctx context.Context, top
 		for msg := range in {
 			t.transform(msg)
 			verifhook.At("decorator.sub.before_out", ctx)
-			out <- msg
+			select {
+			case out <- msg:
+			case <-ctx.Done():
+				// nobody has to read from a cancelled subscription: don't block on it forever
+			case <-t.closing:
+				// Close() must not wait for a reader either
+			}
 		}
 		close(out)
 		t.subscribeWg.Done()
@@ -64,6 +74,7 @@ func (t *messageTransformSubscriberDecorator) Subscribe(ctx context.Context, top
 }
 
 func (t *messageTransformSubscriberDecorator) Close() error {
+	t.closeOnce.Do(func() { close(t.closing) })
 	err := t.sub.Close()
 
 	t.subscribeWg.Wait()
